@@ -158,9 +158,13 @@ def freshness_items(repo):
     sm = repo.func(P + "submodule.Submodule.resolve_link")
     undo_at = guard_at = None
     for i, st in enumerate(sm.node.body):
-        if isinstance(st, ast.For) and ast.unparse(st.iter) == "enumerate(self.children)" and undo_at is None:
-            txt = ast.unparse(st)
-            if "self.children[i] = placeholder" in txt and "child.restore_interface()" in txt:
+        if isinstance(st, ast.For) and "self.children" in ast.unparse(st.iter) and undo_at is None:
+            puts_back = any(isinstance(n, ast.Assign) and isinstance(n.targets[0], ast.Subscript)
+                            and ast.unparse(n.targets[0].value) == "self.children" and isinstance(n.value, ast.Name)
+                            for n in ast.walk(st))
+            restores = any(isinstance(n, ast.Call) and isinstance(n.func, ast.Attribute) and n.func.attr == "restore_interface"
+                           for n in ast.walk(st))
+            if puts_back and restores:
                 undo_at = i
         if isinstance(st, ast.If) and ast.unparse(st.test) == "self.ancestor_obj is None" and guard_at is None:
             guard_at = i
